@@ -7,7 +7,8 @@
     c e c1 c2 (level type)x4          `load` calls with a coarser cell among the four (for the finding classification)
     b i j k                           the real triangles (Mesh::branes)
     endrender
-  Output per render: `ok <id> ...` or `MISMATCH <id> ...`, plus `H <id> ok|FAIL ...` and
+  Output per render: `ok <id> ...` or `MISMATCH <id> ...`, plus `H <id> ok|FAIL ...`, `V <id> ok|FAIL n`
+  (TetSetsDistinct, the extra hypothesis of the edge-manifold clause) and
   `unmatched <id> a b c plus minus maxlevel touches-collapsed-cell` lines for faces violating hypothesis (H).
 -/
 import Std.Data.HashMap
@@ -136,7 +137,15 @@ def checkSimplex (r : Render) : Array String := Id.run do
   if nfaces ≤ 1500 then
     let F := allFaces (r.tets.toList.map (·.1))
     if hypHRef s F != (nun == 0) then return #[s!"MISMATCH {id} hypH-implementations-disagree"]
+  -- extra hypothesis of the edge-manifold clause: no two tets with the same vertex set
+  let mut tsets : Std.HashMap (Nat × Nat × Nat × Nat) Unit := {}
+  let mut dupSets := 0
+  for (t, _, _) in r.tets do
+    let a := #[t.v0, t.v1, t.v2, t.v3].qsort (· < ·)
+    let k := (a[0]!, a[1]!, a[2]!, a[3]!)
+    if tsets.contains k then dupSets := dupSets + 1 else tsets := tsets.insert k ()
   out := out.push s!"ok {id} tets {r.tets.size} tris {bs.size} faces {faces.size} uniform {nuniform} edges {e2s.size}"
+  out := out.push (if dupSets == 0 then s!"V {id} ok" else s!"V {id} FAIL {dupSets}")
   if nun == 0 then out := out.push s!"H {id} ok"
   else
     out := out.push s!"H {id} FAIL {nun}"
